@@ -109,7 +109,7 @@ Section Sdm.
 
   Fixpoint first_free (atoms : list satom) (idx : list Z) (i : nat) : option nat :=
     match atoms, idx with
-    | a :: ra, x :: rx => if negb (sa_h a) && Z.ltb x 0 then Some i else first_free ra rx (S i)
+    | a :: ra, x :: rx => if Z.ltb x 0 then Some i else first_free ra rx (S i)
     | _, _ => None
     end.
 
@@ -137,11 +137,11 @@ Section Sdm.
     Nat.eqb (nd_n a) (nd_n b) && o_eqb O (nd_fx a) (nd_fx b) && o_eqb O (nd_fy a) (nd_fy b) && o_eqb O (nd_fz a) (nd_fz b)
     && Z.eqb (nd_mol a) (nd_mol b).
 
-  Definition need_of_item (m : metric) (ops : list sop) (atoms : list satom) (idx : list Z) (max_mol : Z)
+  Definition need_of_item (m : metric) (ops : list sop) (atoms : list satom) (idx : list Z)
              (acc : list need) (it : sitem) : list need :=
     if negb (it_cov it) then acc else
     let mi := get_idx idx (it_a1 it) in
-    if Z.ltb mi 1 || Z.ltb max_mol mi then acc else
+    if Z.ltb mi 1 then acc else
     match nth_error atoms (it_a1 it), nth_error atoms (it_a2 it) with
     | Some a1, Some a2 =>
       fold_left (fun acc ns =>
@@ -152,7 +152,7 @@ Section Sdm.
           let '((fx, fy, fz), dk) := candidate m s a1 a2 in
           if Nat.eqb n 0 && eq0 fx && eq0 fy && eq0 fz then acc
           else
-            let dddd := if sa_h a1 && sa_h a2 then cst 18 10 else it_dist it + cst 2 10 in
+            let dddd := if sa_h a1 && sa_h a2 then cst 18 10 else bond_limit a1 a2 in
             if ltb (cst 1 1000) dk && negb (ltb dddd dk) then
               let bs := {| nd_n := n; nd_fx := fx; nd_fy := fy; nd_fz := fz; nd_mol := mi |} in
               if existsb (need_eqb bs) acc then acc else acc ++ [bs]
@@ -160,8 +160,8 @@ Section Sdm.
     | _, _ => acc
     end.
 
-  Definition needed_symmetry (m : metric) (ops : list sop) (atoms : list satom) (items : list sitem) (idx : list Z) (max_mol : Z) : list need :=
-    fold_left (need_of_item m ops atoms idx max_mol) items [].
+  Definition needed_symmetry (m : metric) (ops : list sop) (atoms : list satom) (items : list sitem) (idx : list Z) : list need :=
+    fold_left (need_of_item m ops atoms idx) items [].
 
   (* ---- packer: returns the appended atoms as (source atom index, operator number, x, y, z) ---- *)
   Record grown := { g_src : nat; g_n : nat; g_x : T; g_y : T; g_z : T; g_part : Z }.
@@ -190,8 +190,8 @@ Section Sdm.
     snd (fold_left (fun st nd => fold_left (pack_one m ops with_q idx nd) (number_from 0 atoms) st) needs (shown0, [])).
 
   (* Shelxfile.grow() *)
-  Definition grow (m : metric) (ops : list sop) (atoms : list satom) (max_mol : Z) (with_q : bool) : list grown :=
+  Definition grow (m : metric) (ops : list sop) (atoms : list satom) (with_q : bool) : list grown :=
     let items := sdm_list m ops atoms in
     let idx := molindex items atoms in
-    packer m ops atoms idx (needed_symmetry m ops atoms items idx max_mol) with_q.
+    packer m ops atoms idx (needed_symmetry m ops atoms items idx) with_q.
 End Sdm.
